@@ -187,6 +187,13 @@ static void run_case(const std::string &line) {
       else if (t[0] == "F") n->SendFrames();
       else if (t[0] == "C") { int i = atoi(t[1].c_str()); if (i >= 0 && i < ndev) n->StartAddressClaim(i); }
       else if (t[0] == "P") n->ParseMessages();
+      else if (t[0] == "Z" && t.size() >= 3) {          // a sizing call after initialisation: documented to have no effect
+        int which = atoi(t[1].c_str()); unsigned v = (unsigned)tounum(t[2]);
+        if (which == 0) n->SetN2kCANSendFrameBufSize((uint16_t)v);
+        else if (which == 1) n->SetN2kCANMsgBufSize((uint8_t)v);
+        else if (which == 2) n->SetDeviceCount((uint8_t)v);
+        else n->SetN2kCANReceiveFrameBufSize((uint16_t)v);
+      }
       else if (t[0] == "H" && t.size() >= 3) n->SetHeartbeatIntervalAndOffset((uint32_t)tounum(t[1]), (uint32_t)tounum(t[2]), t.size() > 3 ? atoi(t[3].c_str()) : -1);
       else if (t[0] == "R" && t.size() >= 4) {
         RxFrame f; f.id = strtoul(t[1].c_str(), 0, 16); f.len = (unsigned char)atoi(t[2].c_str());
